@@ -166,14 +166,16 @@ fire("c01-burn-non-burn-state", "C01", ["C01.burn1"],
 fire("c01-burn-other-account", "C01", ["C01.burn1"],
      (DISTR, "k.BurnCoinsForSpecifiedModuleAccount(ctx, toSend, types.DistributorMainAccount)", "k.BurnCoinsForSpecifiedModuleAccount(ctx, toSend, types.ValidatorsRewardsCollector)"))
 fire("c01-burn-no-reduce", "C01", ["C01.burn1"],
-     (DISTR, """			[]metrics.Label{telemetry.NewLabel("denom", types.DenomToTrace)},
-		)
+     (DISTR, """				[]metrics.Label{telemetry.NewLabel("denom", types.DenomToTrace)},
+			)
+		}
 		state.Remains = change
 	}
 }
 
-func (k Keeper) sendCoinsToModuleAccount""", """			[]metrics.Label{telemetry.NewLabel("denom", types.DenomToTrace)},
-		)
+func (k Keeper) sendCoinsToModuleAccount""", """				[]metrics.Label{telemetry.NewLabel("denom", types.DenomToTrace)},
+			)
+		}
 		_ = change
 	}
 }
@@ -641,3 +643,23 @@ fire("c16-accounts-end-from-start", "C16", ["C16.accounts"],
      (AUP, "	vestingAccount.EndTime = endTime.AddDate(1, 0, 0).Unix()", "	_ = endTime\n	vestingAccount.EndTime = startTime.AddDate(2, 0, 0).Unix()"))
 fire("c16-params-unvalidated", "C16", ["C16.params"],
      ("x/cfedistributor/migrations/v3/params.go", "	if err := currParams.Validate(); err != nil {\n		return err\n	}\n", ""))
+
+# ---------------- rules added after the first seeded round ----------------
+fire("c05-locked-ignores-withdrawn", ["C05", "C06"], ["C05.locked"],
+     ("x/cfevesting/types/account_vesting_pool.go", "	return m.InitiallyLocked.Sub(m.Sent).Sub(m.Withdrawn)", "	return m.InitiallyLocked.Sub(m.Sent)"))
+fire("c05-locked-sent-twice", "C05", ["C05.locked"],
+     ("x/cfevesting/types/account_vesting_pool.go", "	return m.InitiallyLocked.Sub(m.Sent).Sub(m.Withdrawn)", "	return m.InitiallyLocked.Sub(m.Sent).Sub(m.Sent)"))
+fire("c05-validate-accepts-negative-sent", "C05", ["C05.locked"],
+     ("x/cfevesting/types/account_vesting_pool.go", "	if m.Sent.IsNegative() {", "	if m.Sent.IsNil() {"))
+silent("c05-locked-reordered", "C05",
+       ("x/cfevesting/types/account_vesting_pool.go", "	return m.InitiallyLocked.Sub(m.Sent).Sub(m.Withdrawn)", "	return m.InitiallyLocked.Sub(m.Withdrawn).Sub(m.Sent)"))
+fire("c14-payout-reversed", "C14", ["C14.direction"],
+     (DISTR, "	if err := k.SendCoinsFromModuleToModule(ctx, toSend, types.DistributorMainAccount, state.Account.Id); err != nil {", "	if err := k.SendCoinsFromModuleToModule(ctx, toSend, state.Account.Id, types.DistributorMainAccount); err != nil {"))
+fire("c14-payout-from-other-account", "C14", ["C14.direction"],
+     (DISTR, "	} else if err := k.SendCoinsFromModuleAccount(ctx, toSend, types.DistributorMainAccount, dstAccount); err != nil {", "	} else if err := k.SendCoinsFromModuleAccount(ctx, toSend, types.ValidatorsRewardsCollector, dstAccount); err != nil {"))
+fire("c18-first-distribution-not-emitted", "C18", ["C18.emitall"],
+     (ABCI_D, "		for _, distribution := range distributions {", "		for _, distribution := range distributions[1:] {"))
+fire("c18-emit-skips-small", "C18", ["C18.emitall"],
+     (ABCI_D, "		for _, distribution := range distributions {\n", "		for _, distribution := range distributions {\n			if len(distribution.Amount) == 0 {\n				continue\n			}\n"))
+fire("c20-query-req-unchecked", "C20", ["C20.nilreq"],
+     (QPOOLS, "	if req == nil {\n		return nil, status.Error(codes.InvalidArgument, \"invalid request\")\n	}\n", ""))
